@@ -37,3 +37,25 @@ m = {
 }
 json.dump(m, open(os.path.join(HERE, "MANIFEST.json"), "w"), indent=1)
 print("claimed:", [c["property_id"] for c in checks])
+
+
+def check_module_lists():
+    """every harness must be loaded for every property it names (a harness in a module that a property does not list is silently
+    skipped for that property)"""
+    import glob
+    import contracts as _c
+    from pyvc import runner, api
+    mods = [os.path.basename(p)[:-3] for p in glob.glob(os.path.join(HERE, "contracts", "*.py")) if not p.endswith("__init__.py") and not p.endswith("_native.py")]
+    runner.load_contracts(mods)
+    bad = []
+    for h in api.REGISTRY["harness"]:
+        m = h.fn.__module__.split(".")[-1]
+        for p in h.prop:
+            if m not in _c.PROPERTIES[p]["modules"]:
+                bad.append((p, m, h.name))
+    if bad:
+        print("MODULE LIST MISMATCH:", bad)
+        sys.exit(3)
+
+
+check_module_lists()
